@@ -96,7 +96,99 @@ def c15(tier, seed):
             'outside': ['mul / right_mul_is_exact with parameters above %d' % b, 'scale factors k outside the listed set when parameters exceed 15']}
 
 
-PROPS = {'C15': c15, 'C11': c11, 'C12': c12, 'C20': c20}
+def c06(tier, seed):
+    jobs = []
+    smax, tmax, rmax = (3, 2, 1) if tier == 'quick' else (4, 3, 2)
+    for n in range(0, smax + 1):
+        for m in range(0, tmax + 1):
+            jobs.append(J('vh_c06_strings', [n, m, 0, 0], 'concat/len/at/prefixof/suffixof/contains |s|=%d |t|=%d' % (n, m), cost=3 ** (n + m)))
+            jobs.append(J('vh_c06_strings', [n, m, 0, 2], 'indexof |s|=%d |t|=%d' % (n, m), cost=3 ** (n + m)))
+            for l in range(0, rmax + 1):
+                jobs.append(J('vh_c06_strings', [n, m, l, 3], 'replace |s|=%d |p|=%d |r|=%d' % (n, m, l), cost=3 ** (n + m)))
+                jobs.append(J('vh_c06_strings', [n, m, l, 4], 'replace_all |s|=%d |p|=%d |r|=%d' % (n, m, l), cost=4 ** (n + m)))
+        jobs.append(J('vh_c06_strings', [n, 0, 0, 1], 'substr |s|=%d' % n, cost=3 ** n))
+    return {'jobs': jobs,
+            'bounds': '|s| <= %d, |pattern| <= %d, |replacement| <= %d (every length combination); every character symbolic over [0,0x2FFFF]; '
+                      'index and length arguments symbolic over the full i32 range' % (smax, tmax, rmax),
+            'outside': ['longer strings']}
+
+
+def c09(tier, seed):
+    jobs = []
+    L = 2 if tier == 'quick' else 3
+    for a in range(0, L + 1):
+        for b in range(0, L + 1):
+            for c in range(0, L + 1):
+                jobs.append(J('vh_c09_order', [a, b, c], 'order |a|=%d |b|=%d |c|=%d' % (a, b, c), cost=2 ** (a + b + c)))
+    for prof in ('dev', 'rel'):
+        for n in range(0, 12):
+            jobs.append(J('vh_c09_to_int', [n], 'to_int length %d (%s profile)' % (n, prof), profile=prof, cost=2 ** n))
+        for n in range(0, 3):
+            jobs.append(J('vh_c09_code', [n], 'to_code/from_code/is_digit |s|=%d (%s)' % (n, prof), profile=prof))
+        if tier == 'quick':
+            jobs.append(J('vh_c09_from_int', [0, (-2 ** 31) & 0xffffffff, 99999], 'from_int n in [-2^31, 10^5) (%s)' % prof, profile=prof, cost=500))
+        else:
+            jobs.append(J('vh_c09_from_int', [1], 'from_int full i32 range (%s)' % prof, profile=prof, cost=5000))
+    return {'jobs': jobs,
+            'bounds': 'order: three strings of lengths 0..%d, symbolic characters; str_to_int: every length 0..11, symbolic characters, in BOTH '
+                      'build configurations (dev: overflow-checks on, rel: off); from_int: %s; codes: full i32 / alphabet' % (
+                          L, 'n in [-2^31, 10^5)' if tier == 'quick' else 'full i32 range'),
+            'outside': ['strings longer than 11 for str_to_int (they all overflow)', 'order on longer strings']}
+
+
+def c17(tier, seed):
+    jobs = [J('vh_c17_constructors', [g], 'group %d' % g) for g in range(0, 5)]
+    return {'jobs': jobs,
+            'bounds': 'From<u32>/From<&[u32]>/From<Vec<u32>>/From<&[u32;3]> on symbolic u32 (full range); From<char>/From<&str>/From<String>/'
+                      'parse_smt_literal on a symbolic Rust char over all scalar values (U+0000..U+10FFFF without surrogates); is_good of '
+                      'every result is additionally asserted in the C05/C06/C08/C10 harnesses',
+            'outside': ['strings with more than 3 characters built through the conversions']}
+
+
+def c08(tier, seed):
+    jobs = []
+    L = 4 if tier == 'quick' else 5
+    for n in range(0, L + 1):
+        jobs.append(J('vh_c08_parse', [n] + [0] * n, 'parse: %d symbolic ASCII bytes' % n, cost=6 ** n))
+    B, U, LB, RB = 92, 117, 123, 125
+    templates = [
+        ('\\u{ + 3 symbolic + }', [B, U, LB, 0, 0, 0, RB]),
+        ('\\u{ + 2 symbolic + } + 1 symbolic', [B, U, LB, 0, 0, RB, 0]),
+        ('\\u + 4 symbolic', [B, U, 0, 0, 0, 0]),
+        ('\\u{2 + 4 symbolic + }', [B, U, LB, 50, 0, 0, 0, 0, RB]),
+        ('\\u{ + hex a + 3 symbolic + 2 more hex + } (overlong)', [B, U, LB, 97, 0, 0, 0, 49, 50, RB]),
+        ('1 symbolic + \\u{41} + 1 symbolic', [0, B, U, LB, 52, 49, RB, 0]),
+        ('\\u{ \\u{ 2 symbolic }', [B, U, LB, B, U, LB, 0, 0, RB]),
+        ('\\u12 \\u 4 symbolic', [B, U, 49, 50, B, U, 0, 0, 0, 0]),
+    ]
+    if tier == 'thorough':
+        templates += [
+            ('\\u{ + 5 symbolic + }', [B, U, LB, 0, 0, 0, 0, 0, RB]),
+            ('\\u{ + 4 symbolic + 2 symbolic', [B, U, LB, 0, 0, 0, 0, 0, 0]),
+            ('2 symbolic + u{ + 2 symbolic + }', [0, 0, U, LB, 0, 0, RB]),
+        ]
+    for name, t in templates:
+        jobs.append(J('vh_c08_parse', [len(t)] + t, 'parse template ' + name, cost=6 ** sum(1 for x in t if x == 0)))
+    P = 2 if tier == 'quick' else 3
+    for n in range(0, P + 1):
+        jobs.append(J('vh_c08_print', [n] + [0] * n, 'print: %d symbolic code points' % n, cost=20 ** n))
+    ch = lambda c: ord(c) + 1
+    ptemplates = [
+        ('X u { 4 1 }', [0, ch('u'), ch('{'), ch('4'), ch('1'), ch('}')]),
+        ('X u 0 0 4 1', [0, ch('u'), ch('0'), ch('0'), ch('4'), ch('1')]),
+        ('\\ X { 4 1 }', [ch('\\'), 0, ch('{'), ch('4'), ch('1'), ch('}')]),
+        ('" X "', [ch('"'), 0, ch('"')]),
+        ('X Y { 4 }', [0, 0, ch('{'), ch('4'), ch('}')]),
+    ]
+    for name, t in ptemplates:
+        jobs.append(J('vh_c08_print', [len(t)] + t, 'print template ' + name, cost=20 ** sum(1 for x in t if x == 0)))
+    return {'jobs': jobs,
+            'bounds': 'parser: all texts of 0..%d symbolic ASCII bytes, plus escape templates with symbolic positions (see labels); printer: all '
+                      'strings of 0..%d symbolic code points over [0,0x2FFFF] through core::fmt, plus templates that spell escapes with 1-2 symbolic positions' % (L, P),
+            'outside': ['longer fully symbolic texts', 'non-ASCII literal text (covered for single characters by C17)']}
+
+
+PROPS = {'C06': c06, 'C09': c09, 'C17': c17, 'C08': c08, 'C15': c15, 'C11': c11, 'C12': c12, 'C20': c20}
 
 
 def get(pid, tier, seed):
